@@ -318,11 +318,17 @@ FINDING_PROBES = [
     # (key, source, what is expected)
     ('cond-float-condition-not-folded', 'int x = 1.5 ? 256 : 65535;\n', ('x', 4, 256)),
     ('cond-float-condition-not-folded', 'int x = 0.0 ? 256 : 65535;\n', ('x', 4, 65535)),
+    ('long-double-folded-in-double', 'int x = 0.1L == 0.1;\n', ('x', 4, 0)),
+    ('long-double-folded-in-double', 'int x = 1.0L / 3 == 1.0 / 3;\n', ('x', 4, 0)),
     ('unevaluated-operand-diagnosed', 'int x = 0 && (int)1e30;\n', ('x', 4, 0)),
     ('unevaluated-operand-diagnosed', 'enum { A = 1 || (unsigned)-1.0 }; int x = A;\n', ('x', 4, 1)),
 ]
 
 FIXED_CLI = [
+    # a u-suffixed constant that does not fit unsigned int is unsigned long in EVERY base: signedness-dependent folds
+    ('int a = -0x100000000u > 0; long b = 0x7fffffffffffffffu / -1; long c = 040000000000u % -3; long d = -0x100000000u >> 60;\n'
+     'int e = -0b100000000000000000000000000000000U > 0; int f = -4294967296u > 0; long g = -0x100000000 >> 60; int h = -0x100000000 > 0;\n',
+     [('a', 4, 1), ('b', 8, 0), ('c', 8, 4294967296), ('d', 8, 15), ('e', 4, 1), ('f', 4, 1), ('g', 8, -1), ('h', 4, 0)]),
     # (source, list of (name, size, value)) : regression corpus for the fixes already made in /repo, plus corner cases
     ('_Bool a = (_Bool)077; _Bool b = (_Bool)256; _Bool c = (_Bool)0.5; _Bool d = (_Bool)0.0; _Bool e = (_Bool)-0.0;\n',
      [('a', 1, 1), ('b', 1, 1), ('c', 1, 1), ('d', 1, 0), ('e', 1, 0)]),
